@@ -11,6 +11,32 @@ NOTE = ("Trusted base: Lean 4.33 kernel (+ leanchecker re-check in the thorough 
         "string/Duration/BTreeSet/StableVec semantics, derive_builder/strum/derive_more/shorthand generated code, derived PartialEq/Ord/Hash. ")
 
 CLAIMS = {
+    "C14": {
+        "technique": "Lean 4 proof that each tag's decision table (finish / validate) is exactly the property's rule for ALL accumulator states + exhaustive attribute-subset differential run through text, enclosing playlist and builders",
+        "text": ("Proof (Lean 4) on the model: media_build_ok_iff (ExtXMediaBuilder::validate + required fields accept iff TYPE, GROUP-ID, NAME present, URI for "
+                 "SUBTITLES, no URI and an INSTREAM-ID for CLOSED-CAPTIONS, no INSTREAM-ID otherwise, FORCED only for SUBTITLES, not DEFAULT=YES with "
+                 "AUTOSELECT=NO - for every builder state) and media_parse_ok_iff (the text parser ends in the same table), dateRange_finish_ok_iff, "
+                 "dateRange_end_on_next, duration_text_rejected / duration_special_rejected (negative, NaN, infinite, too large durations are errors), "
+                 "client_attribute_name_rejected, sessionData_finish_ok_iff (DATA-ID and exactly one of VALUE/URI), decryptionKey_finish_ok_iff + "
+                 "decryptionKey_uri_nonempty + method_values + iv_syntax + versions_capacity, streamData_finish_ok_iff, iframe_needs_uri, yes_no_values, "
+                 "start_needs_time_offset. The two builders that do NOT validate are stated as _partial theorems with counterexample theorems and recorded as "
+                 "known findings K6a/K6b. Tie: exhaustive presence/value subsets of every tag as text, inside the enclosing master playlist and through the "
+                 "public builders on library and model (accept/reject must agree) and against the rules written independently in Python."),
+        "design_ref": "DESIGN.md §7 C14",
+        "note": "The lift from attribute text to accumulator state (the tokenizer + step fold) is exercised by the exhaustive run; the tokenizer inversion lemma attrPairs_render is proved in Proofs/Attr.lean.",
+    },
+    "C18": {
+        "technique": "Lean 4 proofs of parse(show v) = v per type (whole tables for enums) + differential run with re-parse oracle + exhaustive binary32 sweep inside the harness",
+        "text": ("Proof (Lean 4) on the model: every variant of EncryptionMethod, HdcpLevel, MediaType, PlaylistType, ProtocolVersion and all 67 InStreamId "
+                 "values round-trip (decide over the tables regenerated from the source); channels_rt, resolution_rt, byteRange_rt (all values below 2^64), "
+                 "codecs_rt, keyFormat_rt, closedCaptions_rt, keyFormatVersions_rt (1-9 items), value_hex_rt with the hex codec lemmas, float_accepts_finite "
+                 "(the wrappers accept exactly the finite / finite non-negative literals). PARTIAL: the IEEE-754 facts are named hypotheses FL1/FL2, and "
+                 "InitializationVector, Value::String/Float and the attribute-list tags are not yet proved in Lean; for all of them the check relies on the "
+                 "correspondence run (model's text and re-parse result must equal the library's) and on the implementation oracle parse(to_string(v)) = v, "
+                 "incl. a sweep over binary32 bit patterns run inside the harness (quick 2^25, thorough all 2^32 per wrapper)."),
+        "design_ref": "DESIGN.md §7 C18",
+        "note": "Known finding K4 (KEYFORMATVERSIONS=\"1\" dropped by the writer) is reported as KNOWN-FINDING.",
+    },
     "C17": {
         "technique": "Lean 4 proof over definitions REGENERATED from the 19 into_owned bodies on every run (translator) + differential/oracle run of into_owned, clone and the three parse entry points",
         "text": ("Translation + proof: bin/lib/translate.py re-reads every `fn into_owned` of /repo/src on every run and regenerates "
